@@ -22,7 +22,7 @@ func init() {
 	run.Register(&run.Property{
 		ID:    "C07",
 		Title: "TWKB decode(encode(g,p)) is g rounded to p places; its headers tell the truth",
-		Rule: "cases = valid geometries of 7 types x 4 coordinate types with empty members and nested collections, ordinates k/10^q (|k|*10^(p-q) < 2^50), XY precision -8..7, Z/M precision 0..7, every subset of {size, bbox, id list, closed rings} (8 option/precision draws per geometry); " +
+		Rule: "[added in rounds 9-11: no-ordinate: every shape without ordinates x 4 coordinate types x all 16 option subsets] cases = valid geometries of 7 types x 4 coordinate types with empty members and nested collections, ordinates k/10^q (|k|*10^(p-q) < 2^50), XY precision -8..7, Z/M precision 0..7, every subset of {size, bbox, id list, closed rings} (8 option/precision draws per geometry); " +
 			"decoded ordinates are compared with exact rational snapping, headers with an independent varint-level reader. non-trivial = geometry with >= 2 nodes, Z/M, an empty member or a non-default option; distinct by (WKB, precisions, options)",
 		Assumptions: []string{
 			"expected scaled integer = round-half-away(v*10^p) in exact rationals; if the exact fraction is within max(1e-9, |k|*2^-50) of 1/2 either neighbour is accepted",
